@@ -292,6 +292,11 @@ func genGlyf(t *rapid.T, n int, o Opts, c *Case, fl *filler) *glyf.Outlines {
 	// level[i] = 0 for simple/empty; composites refer only to lower levels
 	level := make([]int, n)
 	var compositeIdx []int
+	type simpleRec struct {
+		idx, style int
+		instr      []byte
+	}
+	var simple []simpleRec
 	for i := 0; i < n; i++ {
 		var kind int // 0 empty, 1 simple, 2 composite
 		if small {
@@ -330,6 +335,7 @@ func genGlyf(t *rapid.T, n int, o Opts, c *Case, fl *filler) *glyf.Outlines {
 			}
 			gg[i] = SimpleGlyph(cc, instr, style)
 			c.Points[i] = cc
+			simple = append(simple, simpleRec{i, style, instr})
 		case 2:
 			compositeIdx = append(compositeIdx, i)
 		}
@@ -408,6 +414,41 @@ func genGlyf(t *rapid.T, n int, o Opts, c *Case, fl *filler) *glyf.Outlines {
 		}
 		c.label("composite")
 		c.label(fmt.Sprintf("composite-depth-%d", maxDepth))
+	}
+
+	// size class: the glyf table is padded (with instruction bytes, at most
+	// 30000 per glyph) to land exactly on or next to the sizes at which the
+	// loca format changes (offsets/2 must fit 16 bits: 0x1FFFE is the last
+	// size the short format can express) and at which a conservative writer
+	// switches (0xFFFF).
+	if len(simple) > 0 && rapid.IntRange(0, 3).Draw(t, "glyfSizeClass") == 0 {
+		target := rapid.SampledFrom([]int{0xFFFE, 0x10000, 0x1FFFC, 0x1FFFE, 0x20000, 0x20000, 0x20000, 0x20002}).Draw(t, "glyfSize")
+		need := target - len(gg.Encode().GlyfData)
+		const per = 30000
+		if need > 0 && need <= per*len(simple) {
+			for _, sr := range simple {
+				if need == 0 {
+					break
+				}
+				chunk := need
+				if chunk > per {
+					chunk = per
+				}
+				body := gg[sr.idx].Data.(glyf.SimpleGlyph).Encoded
+				k := chunk + (10+len(body))%2 // the glyph record is padded to even length
+				instr := append([]byte(nil), sr.instr...)
+				for j := 0; j < k; j++ {
+					instr = append(instr, byte(fl.intn(256)))
+				}
+				gg[sr.idx] = SimpleGlyph(c.Points[sr.idx], instr, sr.style)
+				need -= chunk
+			}
+			if got := len(gg.Encode().GlyfData); got == target {
+				c.label(fmt.Sprintf("glyf-size-%#x", target))
+			} else {
+				c.label("glyf-size-padding-missed")
+			}
+		}
 	}
 
 	out := &glyf.Outlines{Glyphs: gg, Widths: widths}
